@@ -421,7 +421,7 @@ def enclosing_match_scrutinee(head, pos):
     return None
 
 
-ELEMENT_ADAPTORS = r"(map|for_each|find|find_map|filter|filter_map|all|any|and_then|is_none_or|is_some_and|inspect|flat_map|position|take_while|skip_while|max_by_key|min_by_key|fold|try_fold|then|map_or|map_or_else)"
+ELEMENT_ADAPTORS = r"(map|for_each|find|find_map|filter|filter_map|all|any|and_then|is_none_or|is_some_and|inspect|flat_map|position|take_while|skip_while|max_by_key|min_by_key)"
 ERR_ADAPTORS = r"(map_err|unwrap_or_else|or_else|inspect_err)"
 
 
@@ -687,6 +687,16 @@ def through_call_sites(ident, lb, ctx, depth):
                     leaves += classify(other[st:m.start()], cctx, depth + 1)
     if not found:
         return None
+    # every textual use of the name in the crate must have been analysed above; a use of another shape (a call on a
+    # receiver other than self, the function handed on as a value, a different number of arguments) keeps `unknown`
+    uses = 0
+    for crate, rel, rel_src, other in sources(ctx["repo"]):
+        if rel.startswith(crate_prefix):
+            other = re.sub(r"\buse\s[^;]*;", lambda mm: " " * len(mm.group(0)), other)
+            uses += len([1 for m in re.finditer(r"(?<![\w])" + re.escape(fn_name) + r"(?![\w])", other)
+                         if not re.search(r"\bfn\s+$", other[max(0, m.start() - 6):m.start()])])
+    if uses > found:
+        leaves.append(dict(expr=fn_name, cls="unknown", why=f"{uses - found} use(s) of {fn_name} in the crate could not be analysed as call sites"))
     used("parameter of a crate-private fn → the classes of the arguments at its call sites")
     res, seen = [], set()
     for l in leaves:
@@ -878,7 +888,7 @@ def parse_tracing_args(argsrc):
             if m.group(1) == "target":
                 target = str_lit(m.group(2))
                 if target is None:
-                    target = "<dynamic>"
+                    target = "<dynamic>:" + m.group(2).strip()
             continue
         if fmt is None:
             s = str_lit(p)
@@ -925,6 +935,30 @@ def module_target(crate, rel_src):
     return "::".join([c] + p)
 
 
+_CONSTS = {}
+
+def const_string(repo, crate, rel, expr):
+    """value of the string const / static named by `expr` (`X`, `Self::X`, `module::X`): same file first, then the crate;
+    aliases followed (tools/rsnorm.py); None when it is not one"""
+    m = re.fullmatch(r"(?:\w+\s*::\s*)*([A-Z][A-Z0-9_]*)", expr.strip())
+    if not m:
+        return None
+    sys.path.insert(0, HERE)
+    import rsnorm
+    key = (repo, crate)
+    if key not in _CONSTS:
+        per_file, wide = {}, {}
+        for c, r, _, src in sources(repo):
+            if c == crate:
+                per_file[r] = rsnorm.const_defs(src)
+                for k, v in per_file[r].items():
+                    wide.setdefault(k, []).append(v)
+        _CONSTS[key] = (per_file, wide)
+    per_file, wide = _CONSTS[key]
+    lit, _ = rsnorm.resolve_consts(per_file.get(rel, {}), wide)
+    return str_lit(lit[m.group(1)]) if m.group(1) in lit else None
+
+
 def extract_log_sites(repo, enums):
     sites = []
     for crate, rel, rel_src, src in sources(repo):
@@ -948,6 +982,9 @@ def extract_log_sites(repo, enums):
             for expr, spec in resolve_fmt(args["fmt"], args["fmt_args"]):
                 for lf in classify(expr, ctx):
                     rendered.append(dict(lf, how="{" + (":" + spec if spec else "") + "}", field=None))
+            if (args["target"] or "").startswith("<dynamic>:"):
+                # a target given by a string constant (of this file, else of the crate) is that string
+                args["target"] = const_string(repo, crate, rel, args["target"][len("<dynamic>:"):]) or "<dynamic>"
             sites.append(dict(kind="log", file=rel, line=line_of(src, m.start()), end_line=line_of(src, cl), level=m.group(2),
                               target=args["target"] or module_target(crate, rel_src),
                               fmt=args["fmt"] or "", args=rendered, fn=fn[3] if fn else None))
